@@ -153,7 +153,7 @@ class Driver:
         self.kind = kind
         self.exe = os.path.join(BUILD, f"ocaml-{kind}", "wsmodel")
 
-    def run(self, lines, timeout=1200):
+    def run(self, lines, timeout=420):
         if not lines:
             return []
         env = dict(os.environ)
@@ -168,7 +168,7 @@ class Driver:
                                f"(rc={p.returncode}) stderr={p.stderr[:500]}")
         return out
 
-    def run_parallel(self, lines, chunks=None, timeout=1200):
+    def run_parallel(self, lines, chunks=None, timeout=420):
         from concurrent.futures import ThreadPoolExecutor
         chunks = chunks or NPROC
         if len(lines) < 32:
